@@ -499,3 +499,5 @@ impl<T> Peeker<T> {
 /// The raw spin lock, exported for lock-level conformance checks.
 #[cfg(not(feature = "std-mutex"))]
 pub use crate::mutex::RawMutexLock;
+/// The lock's back-off loop, re-exported so that the verification harness can drive it with a scripted condition.
+pub use crate::backoff::spin_cond;
